@@ -835,6 +835,23 @@ func (x *VC) loadAddr(a *Addr, st *State) *Val {
 			if x.mode == "math" {
 				x.fact("(<= " + v.Len + " 4611686018427387904)")
 				x.fact("(<= " + v.Off + " 4611686018427387904)")
+				// present the slice with offset 0 (a shifted copy of the backing array): element accesses become
+				// (select arr0 i), which quantified specifications can use as a trigger; (select arr (+ off i)) cannot
+				key := sSel(x.get(st, x.fieldComp(a, "#arr")), a.Base) + "|" + sSel(x.get(st, x.fieldComp(a, "#off")), a.Base)
+				if x.shifted == nil {
+					x.shifted = map[string]string{}
+				}
+				a0, ok := x.shifted[key]
+				if !ok && x.noName > 0 {
+					return v // inside a quantified specification no constant can be introduced: keep (arr, off)
+				}
+				if !ok {
+					a0 = x.declare("ldarr0", fmt.Sprintf("(Array Int %s)", es))
+					x.fact(fmt.Sprintf("(forall ((i Int)) (! (= (select %s i) (select %s (+ %s i))) :pattern ((select %s i))))", a0, v.Arr, v.Off, a0))
+					x.shifted[key] = a0
+				}
+				v.RawArr, v.RawOff = v.Arr, v.Off
+				v.Arr, v.Off = a0, x.ilit(0)
 			}
 			return v
 		case *types.Array:
@@ -942,8 +959,13 @@ func (x *VC) storeAddr(a *Addr, v *Val, st *State) {
 				x.refuse("slice store of non-slice value")
 			}
 			ca, co, cl := x.fieldComp(a, "#arr"), x.fieldComp(a, "#off"), x.fieldComp(a, "#len")
-			x.set(st, ca, sStore(x.get(st, ca), a.Base, v.Arr))
-			x.set(st, co, sStore(x.get(st, co), a.Base, v.Off))
+			// a slice presented at offset 0 is stored as the (backing array, offset) it stands for
+			sa, so := v.Arr, v.Off
+			if v.RawArr != "" {
+				sa, so = v.RawArr, v.RawOff
+			}
+			x.set(st, ca, sStore(x.get(st, ca), a.Base, sa))
+			x.set(st, co, sStore(x.get(st, co), a.Base, so))
 			x.set(st, cl, sStore(x.get(st, cl), a.Base, v.Len))
 			return
 		}
@@ -1641,7 +1663,11 @@ func (fr *Frame) sliceOp(ins *ssa.Slice, st *State, reach string) *Val {
 		x.addObl("safety:slice-bounds", "", x.posOf(ins), reach, cond)
 		x.assume(reach, cond)
 	}
-	return &Val{K: KSlice, Arr: base.Arr, Off: x.define("soff", x.idxSort(), x.addS(base.Off, lo)), Len: x.define("slen", x.idxSort(), x.subS(hi, lo)), ES: base.ES, GT: ins.Type()}
+	r := &Val{K: KSlice, Arr: base.Arr, Off: x.define("soff", x.idxSort(), x.addS(base.Off, lo)), Len: x.define("slen", x.idxSort(), x.subS(hi, lo)), ES: base.ES, GT: ins.Type()}
+	if base.RawArr != "" {
+		r.RawArr, r.RawOff = base.RawArr, x.define("srawoff", x.idxSort(), x.addS(base.RawOff, lo))
+	}
+	return r
 }
 
 // appendVals models append(s, t...).
